@@ -29,5 +29,6 @@ class Stm(Opcode):
                         write_count += 1
                 if bit_at(self.registers, 15):
                     processor.mem_a_set(address, 4, processor.registers.get_pc())
+                    write_count += 1
                 if self.wback:
                     processor.registers.set(self.n, add(processor.registers.get(self.n), 4 * write_count, 32))
